@@ -242,7 +242,8 @@ Holds(c, r) ==
 HmmFeasible(r) ==
     \/ SurvSet(r) = {}                                             \* nothing to segment: no model is built
     \/ /\ \E n \in SurvSet(r) : r.cls[BC(r.bins[n])] = "auto"      \* the model is built from the autosomal bins
-       /\ r.sdseen => r.sd9 > 0                                    \* ... and needs a non-zero spread
+       /\ r.sdseen => r.sd9 >= 1000                                \* ... and needs a spread that is not (numerically) zero:
+                                                                   \* >= 10^-6; grid values 1/1024 apart give 0 or far more
 Premise(r) ==
     /\ Contiguous(r.bins) /\ BinsSorted(r.bins) /\ OnGrid(r.bins)
     /\ r.mab >= 1 /\ r.gap >= 0
